@@ -18,3 +18,4 @@ RC=$?
 grep -E "^(VIOLATION|KNOWN-FINDING|  fingerprint|  message|C[0-9]+ tier|CAP|MACHINERY)" $S/vd/last.log | head -20
 echo "check exit: $RC"
 git -C $S/repo checkout -q -- . ; git -C $S/repo clean -fdq
+if [ "$RC" -ge 128 ]; then echo "note: the engine was killed by a signal (exit $RC); the ./check driver reports that as VIOLATION fingerprint engine-died:<signal> and exits 1"; fi
